@@ -10,15 +10,23 @@ The third pass skips exactly the remembered ids (`buildCas_skip_eq_dropped`), th
 structures of registered types (`buildCas_flag_irrelevant`), and end to end a lenient load of a document is the
 strict load of the document without the unknown-typed elements and without their ids in the member lists
 (`loadXmi_lenient_eq_strict_filtered`).
+
+"Known" is exact: the reader resolves the type an element names with `get_type(name, match_exactly=True)`
+(`getTypeExact`), so a name without namespace that merely matches the short name of a packaged type is unknown (finding L1:
+with `get_type(name)` such an element was loaded as an instance of the packaged type — strict loading did not refuse,
+lenient loading did not drop it).  Evaluated instance: `Spec/ExactTypeCheck.lean`.
 -/
 import CassisModel.Proofs.XmiLoad2
+import CassisModel.Spec.ExactTypeCheck   -- evaluated instance: `Token` against a type system with `b.type.Token` only
 
 namespace Cassis.Xmi
 open Cassis.TS
 
-/-- the elements the reader can parse: sofas, views, and structures whose type the type system defines -/
+/-- the elements the reader can parse: sofas, views, and structures whose type the type system defines *under the name
+    the element gives* (`get_type(name, match_exactly=True)`; a document names types by their full names, a name without
+    namespace that only matches the short name of a packaged type is unknown — finding L1) -/
 def knownElem (ts : TypeSystem) (e : XElem) : Bool :=
-  e.ty == SOFA || e.ty == VIEW_T || (match getType ts e.ty with | .ok _ => true | .error _ => false)
+  e.ty == SOFA || e.ty == VIEW_T || (find? ts e.ty).isSome
 
 /-- strict loading refuses: if the first pass succeeds in strict mode, every element has a known type -/
 theorem pass1_strict_all_known (K : Consts) (ts : TypeSystem) (tsIdx : Nat) (doc : XDoc) (s r : Pass1)
@@ -73,4 +81,27 @@ theorem loadXmi_lenient_eq_strict_filtered (K : Consts) (ts : TypeSystem) (tsIdx
         ld'.cas = ld.cas ∧ ld'.heap = ld.heap :=
   loadXmi_lenient_eq_strict_filtered_aux K ts tsIdx ci hp doc ld h
 
+/-- `knownElem` in terms of the lookup the reader performs -/
+theorem knownElem_iff (ts : TypeSystem) (e : XElem) :
+    knownElem ts e = true ↔ e.ty = SOFA ∨ e.ty = VIEW_T ∨ ∃ t, getTypeExact ts e.ty = .ok t := by
+  unfold knownElem
+  simp only [Bool.or_eq_true, beq_iff_eq, getTypeExact_isSome, or_assoc]
+
+/-- an element of a registered type is known; an unregistered name is unknown even when `get_type(name)` would find a
+    type by short name -/
+theorem knownElem_false_of_find_none (ts : TypeSystem) (e : XElem) (h1 : e.ty ≠ SOFA) (h2 : e.ty ≠ VIEW_T)
+    (h : find? ts e.ty = none) : knownElem ts e = false := by
+  unfold knownElem
+  simp [h1, h2, h]
+
 end Cassis.Xmi
+
+#print axioms Cassis.Xmi.pass1_strict_all_known
+#print axioms Cassis.Xmi.pass1_strict_unknown_error
+#print axioms Cassis.Xmi.pass1_lenient_eq_filtered
+#print axioms Cassis.Xmi.pass1_known_same
+#print axioms Cassis.Xmi.pass1_lenient_ids
+#print axioms Cassis.Xmi.buildCas_skip_eq_dropped
+#print axioms Cassis.Xmi.buildCas_flag_irrelevant
+#print axioms Cassis.Xmi.loadXmi_lenient_eq_strict_filtered
+#print axioms Cassis.Xmi.knownElem_iff
